@@ -30,10 +30,11 @@ type ABCfg struct {
 	RcvBufA  int     `json:"rcvbuf_a"`
 	RcvBufB  int     `json:"rcvbuf_b"`
 	NConn    int     `json:"nconn"`
-	Bytes    []int   `json:"bytes"`     // per connection and direction: planned bytes [c*2+d]
-	ISSMode  int     `json:"iss_mode"`  // 0 random, 1 active just below 2^31, 2 active just below 2^32, 3/4 passive likewise
-	ISSBack  int     `json:"iss_back"`  // how far below the boundary
-	KPassive uint32  `json:"k_passive"` // measured cookie constant (passive ISS - active ISS), filled by the pre-pass
+	Bytes    []int   `json:"bytes"`                   // per connection and direction: planned bytes [c*2+d]
+	ISSMode  int     `json:"iss_mode"`                // 0 random, 1 active just below 2^31, 2 active just below 2^32, 3/4 passive likewise
+	ISSBack  int     `json:"iss_back"`                // how far below the boundary
+	ISSMid   bool    `json:"iss_mid_space,omitempty"` // the neutral twin of a C14 run
+	KPassive uint32  `json:"k_passive"`               // measured cookie constant (passive ISS - active ISS), filled by the pre-pass
 	Drop     float64 `json:"drop"`
 	Dup      float64 `json:"dup"`
 	Reorder  float64 `json:"reorder"`
@@ -315,14 +316,10 @@ func (w *ABWorld) connect(ci int) {
 	if ci == 0 && w.Cfg.ISSMode > 0 && !w.Cfg.MeasureK {
 		var target uint32
 		switch w.Cfg.ISSMode {
-		case 1:
-			target = 1<<31 - uint32(w.Cfg.ISSBack)
-		case 2:
-			target = 0 - uint32(w.Cfg.ISSBack)
-		case 3:
-			target = 1<<31 - uint32(w.Cfg.ISSBack) - w.Cfg.KPassive
-		case 4:
-			target = 0 - uint32(w.Cfg.ISSBack) - w.Cfg.KPassive
+		case 1, 2:
+			target = issBase(w.Cfg.ISSMode, w.Cfg.ISSMid) - uint32(w.Cfg.ISSBack)
+		case 3, 4:
+			target = issBase(w.Cfg.ISSMode, w.Cfg.ISSMid) - uint32(w.Cfg.ISSBack) - w.Cfg.KPassive
 		}
 		rand.VerifNext([]byte{byte(target), byte(target >> 8), byte(target >> 16), byte(target >> 24)})
 	}
